@@ -33,6 +33,22 @@ D1 = distribution_to_json(K.DISTS[0])
 D2 = distribution_to_json(K.DISTS[4])
 
 
+def without_reads(calls: list[dict[str, Any]]) -> list[dict[str, Any]]:
+    """The write calls of a history, with `{"ref": j}` ids re-indexed (a ref is the index of an earlier call in the list)."""
+    keep = [i for i, c in enumerate(calls) if not c["op"]["op"].startswith("get")]
+    new_index = {old: new for new, old in enumerate(keep)}
+
+    def fix(op: dict[str, Any]) -> dict[str, Any]:
+        out = dict(op)
+        for k in ("sid", "tid"):
+            v = out.get(k)
+            if isinstance(v, dict) and "ref" in v:
+                out[k] = {"ref": new_index.get(v["ref"], v["ref"])}
+        return out
+
+    return [dict(calls[i], op=fix(calls[i]["op"])) for i in keep]
+
+
 def erase(j: Any) -> Any:
     if isinstance(j, dict):
         ent = "number" in j or "name" in j
@@ -365,7 +381,7 @@ def _worker(args: tuple[str, list[tuple[int, dict[str, Any], int | None]], str, 
                 elif "ok" in ans:
                     # classify: does the history of the *writes* alone linearize?  Then only a reader saw an
                     # impossible state (a read assembled from several moments).
-                    req2 = dict(res["req"], calls=[c for c in res["req"]["calls"] if not c["op"]["op"].startswith("get")])
+                    req2 = dict(res["req"], calls=without_reads(res["req"]["calls"]))
                     ans2 = drv.ask(req2) if len(req2["calls"]) < len(res["req"]["calls"]) else {"ok": False}
                     sub = "torn-read" if ans2.get("ok") else "not-linearizable"
                     if sub == "not-linearizable":
